@@ -262,6 +262,8 @@ pub fn run_l(case: &LCase) -> (SimEnd, crate::sched::SimStats, LObs) {
             max_worker_threads: c.max,
             idle_timeout: c.idle_timeout,
             stop_listening: stop.clone(),
+            // (a field added to ListenConfig later keeps its default here)
+            ..Default::default()
         };
         let net2 = net.clone();
         let listen_task = shuttle::thread::spawn(move || {
@@ -851,6 +853,13 @@ pub fn judge_l(case: &LCase, end: &SimEnd, o: &LObs) -> LVerdict {
                     // one connection only: "the service ended the connection before an earlier request
                     // was answered" is C01's clause, there is no other connection to blame
                     x.prop = "C01";
+                }
+                if h_ok && multi && matches!(x.clause.as_str(), "continues-without-more" | "oneway-answered") {
+                    // what these two clauses say is a fact about the bytes on this connection, whoever
+                    // is to blame for it: it stays with its property as well
+                    let mut keep = x.clone();
+                    keep.detail = format!("connection {}: {}", i, keep.detail);
+                    v.push(keep);
                 }
                 if h_ok && matches!(x.prop, "C01" | "C03" | "C04" | "C05") {
                     let was = x.prop;
@@ -1807,6 +1816,79 @@ pub fn c04_l_spaces(tier: Tier) -> Vec<Space> {
     }]
 }
 
+/// C05 on the socket path: a peer walks away from a `more` stream while `continues` replies are being
+/// written to it (it never read; the write blocks, then fails); afterwards other connections make
+/// plain calls on the same server
+pub fn c05_l_spaces(tier: Tier) -> Vec<Space> {
+    use crate::alphabet::{Flags, Kind};
+    let cfg = SvcCfg::basic();
+    let n = if tier == Tier::Quick { 1_500 } else { 50_000 };
+    vec![Space {
+        name: "L.more.abandoned-stream",
+        size: n,
+        exhaustive: false,
+        gen: Box::new(move |_idx, seed| {
+            let mut rng = Rng::new(seed);
+            let a = cfg.scripted[0].clone();
+            let mut conns = Vec::new();
+            let mut steps = Vec::new();
+            let quitters = rng.range(1, 2) as usize;
+            for q in 0..quitters {
+                let mut script = vec!["c1"];
+                for _ in 0..rng.range(1, 6) {
+                    script.push("r");
+                }
+                if rng.chance(1, 2) {
+                    script.push("c0");
+                    script.push("r");
+                }
+                let mut s = crate::alphabet::frame(&crate::alphabet::request(
+                    &format!("{}.Script", a),
+                    Some(json!({"token": format!("c{}-0", q), "script": script})),
+                    Flags::MORE,
+                ));
+                if rng.chance(1, 3) {
+                    s.extend(crate::alphabet::frame(&crate::alphabet::request(
+                        "org.example.more.TestMore",
+                        Some(json!({"n": rng.range(1, 5)})),
+                        Flags::MORE,
+                    )));
+                }
+                let mut c = LConn::healthy(&s);
+                c.peer = Peer::StopReading;
+                c.s2c_cap = *rng.pick(&[1usize, 20, 45, 70, 120]);
+                steps.push(Step::Connect(q));
+                steps.push(Step::Send(q, s.len()));
+                steps.push(Step::Quiesce);
+                steps.push(if rng.chance(1, 2) { Step::Reset(q) } else { Step::Close(q) });
+                if rng.chance(1, 2) {
+                    steps.push(Step::Quiesce);
+                }
+                conns.push(c);
+            }
+            let red = crate::alphabet::reduced();
+            for k in 0..rng.range(1, 3) as usize {
+                let i = quitters + k;
+                let kinds: Vec<Kind> = (0..rng.range(1, 3))
+                    .map(|_| if rng.chance(1, 2) { Kind(crate::alphabet::Base::Echo, Flags::NONE) } else { *rng.pick(&red) })
+                    .collect();
+                let s = token_stream(&cfg, &kinds, i);
+                conns.push(LConn::healthy(&s));
+                steps.push(Step::Connect(i));
+                steps.push(Step::Send(i, s.len()));
+                if rng.chance(1, 2) {
+                    steps.push(Step::Quiesce);
+                }
+            }
+            let mut lc = LCase::single(&cfg, conns[0].clone(), steps, SchedCfg::random(&mut rng, 1));
+            lc.conns = conns;
+            lc.initial = 1;
+            lc.max = *rng.pick(&[1usize, 2, 4]);
+            Case::L(lc)
+        }),
+    }]
+}
+
 /// one connection that moves more than a megabyte in total (many medium-sized requests)
 pub fn megabyte_conn(cfg: &SvcCfg, rng: &mut Rng, idx: usize) -> LConn {
     let a = cfg.scripted[0].clone();
@@ -2095,6 +2177,15 @@ pub fn c03_spaces(tier: Tier) -> Vec<Space> {
                 let mut s = Vec::new();
                 for i in 0..rng.range(1, 5) {
                     let base = rng.pick(crate::props::NAME_POOL).to_string();
+                    if rng.chance(1, 5) {
+                        // descriptions asked for from several connections at the same time
+                        s.extend(crate::alphabet::frame(&crate::alphabet::request(
+                            "org.varlink.service.GetInterfaceDescription",
+                            Some(json!({ "interface": base })),
+                            crate::alphabet::Flags::NONE,
+                        )));
+                        continue;
+                    }
                     let m = match rng.below(5) {
                         0 => format!("{}.Echo", base),
                         1 => format!("{}.Nope", base),
@@ -2218,6 +2309,67 @@ pub fn c06_spaces(tier: Tier) -> Vec<Space> {
                 lc.conns[0].s2c_cap = rng.range(1, 200) as usize;
             }
             lc.initial = rng.range(1, 2) as usize;
+            Case::L(lc)
+        }),
+    },
+    // a long history of faulty peers on one server: ~75 connections that each send one complete
+    // malformed message of graded size (40 x 1 MiB, then five each of 256 KiB .. 64 bytes: about 42 MiB
+    // in total, so that whatever is kept per malformed message adds up), with healthy connections in
+    // between and at the end, which must be served like on a fresh server
+    Space {
+        name: "L.malformed.flood",
+        size: if tier == Tier::Quick { 2 } else { 24 },
+        exhaustive: false,
+        gen: Box::new(move |idx, seed| {
+            let mut rng = Rng::new(seed);
+            let cfg = SvcCfg::basic();
+            let mut sizes: Vec<usize> = vec![1 << 20; 40];
+            for sz in [256 << 10, 64 << 10, 16 << 10, 4 << 10, 1 << 10, 256, 64] {
+                for _ in 0..5 {
+                    sizes.push(sz);
+                }
+            }
+            let mut conns = Vec::new();
+            let mut steps = Vec::new();
+            let red = crate::alphabet::reduced();
+            let mut probe = |conns: &mut Vec<LConn>, steps: &mut Vec<Step>, rng: &mut Rng| {
+                let i = conns.len();
+                let kinds: Vec<_> = (0..rng.range(1, 3)).map(|_| *rng.pick(&red)).collect();
+                let s = token_stream(&cfg, &kinds, i);
+                conns.push(LConn::healthy(&s));
+                steps.push(Step::Connect(i));
+                steps.push(Step::Send(i, s.len()));
+                steps.push(Step::Quiesce);
+                steps.push(Step::HalfClose(i));
+            };
+            for (k, sz) in sizes.iter().enumerate() {
+                let i = conns.len();
+                let head: &[u8] = match (idx + k as u64) % 3 {
+                    0 => b"{\"method\":42,\"pad\":\"",
+                    1 => b"{\"method\":\"org.example.ping.Ping\",\"more\":\"yes\",\"pad\":\"",
+                    _ => b"this is not json ",
+                };
+                let mut m = head.to_vec();
+                while m.len() + 3 < *sz {
+                    m.push(b'p');
+                }
+                m.extend_from_slice(b"\"}");
+                m.push(0);
+                conns.push(LConn::healthy(&m));
+                steps.push(Step::Connect(i));
+                steps.push(Step::Send(i, m.len()));
+                steps.push(Step::Quiesce);
+                steps.push(Step::Close(i));
+                if k % 12 == 11 {
+                    probe(&mut conns, &mut steps, &mut rng);
+                }
+            }
+            probe(&mut conns, &mut steps, &mut rng);
+            probe(&mut conns, &mut steps, &mut rng);
+            let mut lc = LCase::single(&cfg, conns[0].clone(), steps, SchedCfg::random(&mut rng, 1));
+            lc.conns = conns;
+            lc.initial = 1;
+            lc.max = 4;
             Case::L(lc)
         }),
     }]
